@@ -76,7 +76,7 @@ func verifC21(registry map[uint32]func() bin.Object, sample, n int) {
 func VerifC21_e2e() {
 	n := 12
 	if verifrt.Tier() == 1 {
-		n = 16
+		n = 24
 	}
 	verifC21(TypesConstructorMap(), 0, n)
 }
